@@ -379,6 +379,13 @@ pub open spec fn refundable(d: Option<DepositInfo>) -> bool { d is Some && d->So
     proof {
         let s = old(deps.storage).view();
         let w = deps.querier.world();
+        if cfg_of(s) is Some && grp_total_now(w, group_of(s)) is Some {
+            match cfg_of(s)->Some_0.threshold {
+                Threshold::AbsolutePercentage { percentage } => { lemma_vn_le(grp_total_now(w, group_of(s))->Some_0 as int, D18() - percentage.0); }
+                Threshold::ThresholdQuorum { threshold, quorum } => { lemma_vn_le(grp_total_now(w, group_of(s))->Some_0 as int, D18() - threshold.0); }
+                _ => {}
+            }
+        }
         if cfg_of(s) is Some && grp_member_now(w, group_of(s), info.sender@) is Some && grp_total_now(w, group_of(s)) is Some
             && clamp_expiry(latest, cfg_of(s)->Some_0.max_voting_period.after_spec(&env.block)) is Some {
             lemma_propose_preserves(s, info.sender, new_prop(s, w, info.sender, &env.block, title, description, msgs,
